@@ -1569,13 +1569,15 @@ fn run_fuzz(check: &dyn Check, spec: &FuzzSpec, cfg: &RunConfig) -> Result<FuzzO
 		}
 		let _ = std::fs::write(&dict, text);
 	}
+	// development aid: PV_FUZZ_RUNS overrides the executions per job
+	let runs_per_job = std::env::var("PV_FUZZ_RUNS").ok().and_then(|v| v.parse::<u64>().ok()).unwrap_or(spec.runs_per_job);
 	let t1 = Instant::now();
 	let mut children = Vec::new();
 	for j in 0..spec.jobs.max(1)
 	{
 		let log = std::fs::File::create(log_dir.join(format!("job-{}.log", j))).map_err(|e| e.to_string())?;
 		let mut cmd = Command::new(&bin);
-		cmd.arg(format!("-runs={}", spec.runs_per_job))
+		cmd.arg(format!("-runs={}", runs_per_job))
 			// libFuzzer treats seed 0 as "random"
 			.arg(format!("-seed={}", 1 + (cfg.seed.wrapping_mul(1000) + j as u64) % 4_000_000_000))
 			.arg(format!("-max_len={}", spec.max_len))
@@ -1596,7 +1598,7 @@ fn run_fuzz(check: &dyn Check, spec: &FuzzSpec, cfg: &RunConfig) -> Result<FuzzO
 		children.push(cmd.spawn().map_err(|e| format!("cannot start {}: {}", bin.display(), e))?);
 	}
 	// fixed work; the watchdog only guards against a wedged process
-	let watchdog = Duration::from_secs(1800 + spec.runs_per_job / 200);
+	let watchdog = Duration::from_secs(1800 + runs_per_job / 200);
 	let mut inconclusive = 0u64;
 	for c in children.iter_mut()
 	{
@@ -1751,7 +1753,7 @@ fn run_fuzz(check: &dyn Check, spec: &FuzzSpec, cfg: &RunConfig) -> Result<FuzzO
 		"target": spec.target,
 		"engine": "libFuzzer (cargo-fuzz, AddressSanitizer, debug assertions on)",
 		"jobs": spec.jobs,
-		"runs_per_job": spec.runs_per_job,
+		"runs_per_job": runs_per_job,
 		"max_len": spec.max_len,
 		"seed_corpus_units": spec.seeds.len(),
 		"executions": executions,
@@ -1782,9 +1784,11 @@ pub fn run_check(check: &dyn Check, cfg: &RunConfig) -> i32
 	let tot = Arc::new(Mutex::new(Totals::default()));
 	let mut exhaustive_all = true;
 	let mut any = false;
+	// development aid: PV_ONLY_FUZZ=1 skips the generated streams
+	let only_fuzz = std::env::var("PV_ONLY_FUZZ").map(|v| v == "1").unwrap_or(false);
 	for (si, s) in streams.iter().enumerate()
 	{
-		let n = s.count(cfg.tier);
+		let n = if only_fuzz { 0 } else { s.count(cfg.tier) };
 		if n == 0
 		{
 			continue;
